@@ -73,11 +73,12 @@ type c19Case struct {
 var c19RoleNames = map[string]string{"s": "system", "u": "user", "a": "assistant", "t": "tool", "o": "control"}
 
 type c19Env struct {
-	tmpl    []*template.Template
-	pool    [][]byte // decodable PNGs, src = 1000+idx
-	poolPre [][]byte // their mllama.Preprocess output, serialised as chatPrompt does
-	poolAR  []int
-	fixed   int // behaviour of the tree under test on the F4 probe (0 = pinned, 1 = repaired)
+	tmpl     []*template.Template
+	pool     [][]byte // decodable PNGs, src = 1000+idx
+	poolPre  [][]byte // their mllama.Preprocess output, serialised as chatPrompt does
+	poolAR   []int
+	fixed    int // variant of the tree under test: bit 0 = F4 probe repaired, bit 1 = legacy-loop (F4b) probe repaired
+	probeOdd int // probes that matched neither variant
 }
 
 func c19NewEnv(t *testing.T) *c19Env {
@@ -120,7 +121,21 @@ func c19NewEnv(t *testing.T) *c19Env {
 	case "SYS hi ":
 		e.fixed = 1
 	default:
-		t.Fatalf("C19 variant probe: unexpected prompt %q (err=%v)", r.prompt, r.err)
+		// neither variant: carry on as "pinned" so that L1/L2 produce concrete failing inputs
+		t.Logf("C19 variant probe: unexpected prompt %q (err=%v)", r.prompt, r.err)
+		e.probeOdd++
+	}
+	// same for the legacy template loop (F4b probe): bit 1 of the variant
+	probe = c19Case{style: c19StyleLegacy, limit: 2048, msgs: []c19Msg{
+		{role: "u", content: "hello"}, {role: "a", content: ""}, {role: "u", content: "again"}}}
+	r = e.runReal(&probe)
+	switch r.prompt {
+	case "again ":
+	case "hello again ":
+		e.fixed |= 2
+	default:
+		t.Logf("C19 legacy variant probe: unexpected prompt %q (err=%v)", r.prompt, r.err)
+		e.probeOdd++
 	}
 	return e
 }
@@ -748,7 +763,9 @@ func TestVerifC19(t *testing.T) {
 	e := c19NewEnv(t)
 	out := zzverif.NewOut()
 	defer out.Close()
-	out.Add("variant_fixed", e.fixed)
+	out.Add("variant_probe_unexpected", e.probeOdd)
+	out.Add("variant_f4_fixed", e.fixed&1)
+	out.Add("variant_legacy_fixed", e.fixed>>1)
 
 	if p := os.Getenv("VERIF_REPLAY"); p != "" {
 		raw, err := os.ReadFile(p)
